@@ -24,7 +24,13 @@ def main():
         from . import replaycmd
         return replaycmd.replay_file(a.replay)
     out = C.Outcome(prop, a.tier)
-    mod.run(out, a.tier)
+    try:
+        mod.run(out, a.tier)
+    except Exception as e:          # a crash of the machinery is never a pass and never a violation
+        import traceback
+        tb = traceback.format_exc()
+        out.notes.append("check aborted: %s" % tb[-1500:])
+        out.inconc("the check aborted before all obligations were decided: %s: %s" % (type(e).__name__, str(e)[:300]))
     return out.finish()
 
 
